@@ -258,6 +258,10 @@ class HistRun:
             FS.active = True
             w.srv.start()
         self.audit(initial=True)
+        # the initial state of every collection is a state it has issued a token for
+        from . import hist_oracles
+
+        hist_oracles.record_tokens_and_tags(self, self.obs)
 
     def close(self):
         try:
@@ -993,6 +997,10 @@ class HistRun:
                 if not hasattr(self, "deleted_colls"):
                     self.deleted_colls = []
                 self.deleted_colls.append((cpath, self.model.colls[cpath].kind))
+                # observer state belongs to the collection, not to the path
+                for d in (self.tokens, self.tag_states, self.git_heads):
+                    for key in [k for k in d if k.startswith(cpath)]:
+                        del d[key]
                 self.model.drop_tree(cpath)
                 ctx["deleted_coll"] = cpath
             else:
@@ -1204,9 +1212,38 @@ class HistRun:
                     seen = self.tag_states.get(coll, {})
                     # the id of the empty tree is excluded: xandikos itself adds that
                     # object to every repository, and a diff against it is the (correct) full listing
-                    if oo.tags["sync"] not in issued and oo.tags["sync"] not in seen and oo.tags["sync"] != "4b825dc642cb6eb9a060e54bf8d69288fbee4904":
+                    if oo.tags["sync"] not in issued and oo.tags["sync"] not in seen and oo.tags["sync"] != "4b825dc642cb6eb9a060e54bf8d69288fbee4904" \
+                            and oo.tags["sync"] not in self.historical_trees(coll):
                         return oo.tags["sync"]
         return None
+
+    def historical_trees(self, coll):
+        """Tree ids of every commit of the collection (git observer): states the
+        collection has been in, including ones no client ever saw."""
+        import os
+
+        from dulwich.repo import Repo
+
+        a = FS.active
+        FS.active = False
+        out = set()
+        try:
+            try:
+                rp = Repo(os.path.join(self.arena.root, coll.strip("/")))
+            except Exception:
+                return out
+            try:
+                try:
+                    head = rp.head()
+                except KeyError:
+                    return out
+                for e in rp.get_walker(include=[head]):
+                    out.add(e.commit.tree.decode("ascii"))
+            finally:
+                rp.close()
+        finally:
+            FS.active = a
+        return out
 
     def head_commit(self, coll):
         import os
